@@ -116,6 +116,11 @@ def run(ctx):
     ctx.model("Transformers (intended / repaired landscaper)", r)
     r = tlc.run_tlc("Transformers", workers=4, constants=dict(MaxLen=3, FitKeepsFirst=True), invariants=["RefitForgets"], heap="2g")
     ctx.model("Transformers with keep-first fit (pre-repair; expected to fail RefitForgets)", r, expect_violation="RefitForgets")
+    r = tlc.run_tlc("TransformersImager", workers=4, constants=dict(MaxLen=4 if quick else 6, SkipPersOnRefit=False),
+                    invariants=["RefitForgets", "FitTransformIsFitThenTransform", "ElementByElementInOrder", "CoversData"], properties=["TransformKeepsState"], heap="3g")
+    ctx.model("TransformersImager (image transformer history machine)", r)
+    r = tlc.run_tlc("TransformersImager", workers=2, constants=dict(MaxLen=3, SkipPersOnRefit=True), invariants=["RefitForgets"], heap="2g")
+    ctx.model("TransformersImager with a fit that skips the persistence range on refit (expected to fail RefitForgets)", r, expect_violation="RefitForgets")
     validate(ctx, make_items(ctx, 600 if quick else 6000), "V")
 
 
